@@ -17,7 +17,7 @@ func checkC17(r *Run) {
 		ruleOutDirect(r, p)
 	}
 	r.Floor("A17a", 30)
-	r.Floor("A17b", 6)
+	r.Floor("A17b", 3)
 	r.Floor("A23", 8)
 	r.Floor("READERR", 6)
 	r.Floor("OUTDIRECT", 1)
